@@ -1,2 +1,35 @@
-/- stub: line-protocol driver for C10 (to be written) -/
-def main : IO Unit := pure ()
+/- Line-protocol driver for property C10 (formula trees).  One request per line:
+     f <formula in prefix notation>   ->  k=<kind|none> g=<0|1> i=<0|1> convex=<0|1> clockfree=<0|1> wf=<0|1> noexc=<0|1>
+     exceptions                       ->  the computed exception set `leafExceptions`, e.g.  NEQ/CLOCK/CLOCK LT/...   (or `none`)
+   `harness/c10.cpp` places the same formulas as guard and as invariant in real XML models. -/
+import UtapModel.Model.Formula
+open UtapModel.Types UtapModel.TypeClauses UtapModel.Formula
+
+def bit (b : Bool) : String := if b then "1" else "0"
+
+def stepLine (line : String) : String :=
+  let ws := (line.trimAscii.toString.splitOn " ").filter (· ≠ "")
+  match ws with
+  | "f" :: rest =>
+    match parseForm (rest.length + 1) rest with
+    | some (f, []) =>
+      let k := match classify f with
+        | some k => k.name
+        | none => "none"
+      s!"k={k} g={bit (acceptsAsGuard f)} i={bit (acceptsAsInvariant f)} convex={bit (Convex f)} clockfree={bit (ClockFree f)} wf={bit (WF f)} noexc={bit (noExcLeaf f)}"
+    | _ => "bad-op"
+  | ["exceptions"] =>
+    match leafExceptions with
+    | [] => "none"
+    | es => " ".intercalate (es.map fun (o, l, r) => s!"{o.name}/{l.name}/{r.name}")
+  | _ => "bad-op"
+
+partial def loop (h : IO.FS.Stream) (out : IO.FS.Stream) : IO Unit := do
+  let line ← h.getLine
+  if line.isEmpty then return ()
+  out.putStrLn (stepLine line)
+  loop h out
+
+def main : IO Unit := do
+  let out ← IO.getStdout
+  loop (← IO.getStdin) out
